@@ -13,6 +13,7 @@ from vlib.runner import Eval
 
 ID = "C11"
 LEVEL = "exploration"
+CGF_RUNS = {"thorough": 4000}  # coverage-guided stage (vlib/cgf.py): libFuzzer executions per worker, 16 workers
 RULE = (
     "Non-nullable rules of 1-4 instructions over a 2-3 letter alphabet of instruction bodies (templates [a], [a,a], [a,b], [a,b,a], with $or/times/"
     "$not/any-order variants; nullability decided by the reference) x listings that are random words over the same alphabet (length 3-16, so that "
